@@ -27,6 +27,26 @@ Definition run_C11 (i : winput) : obs_C11 :=
                 (list_prod ts ts) ;;
   Ok (map proj01 (do_terms d), ps).
 
+(* the same four queries on a chosen list of ordered pairs only (deep ontologies, where all pairs
+   would be too many) *)
+Definition input_C11d : Type := winput * list (N * N).
+
+Definition run_C11d (i : input_C11d) : obs_C11 :=
+  let '((w, tbl), pairs) := i in
+  do r <- build_world tbl w ;;
+  do o <- snd r ;;
+  do d <- dump_onto o ;;
+  do ps <- mapM (fun ab : N * N =>
+                   do a <- opt_panic (o_get (fst ab) o) ;;
+                   do b <- opt_panic (o_get (snd ab) o) ;;
+                   do da <- dist_anc (q_fuel o) o a b ;;
+                   do pa <- path_anc (q_fuel o) o a b ;;
+                   do dt <- dist_term o a b ;;
+                   do pt <- path_term o a b ;;
+                   Ok (t_id a, t_id b, encO da, encP pa, encO dt, encP pt))
+                pairs ;;
+  Ok (map proj01 (do_terms d), ps).
+
 (* ---------------- reference: shortest chains of parent links ---------------- *)
 
 Definition parents_of (ts : list p01) (a : N) : list N :=
@@ -106,5 +126,16 @@ Definition spec_C11 (i : winput) (o : obs_C11) : bool :=
       (* symmetry of the distance between two terms *)
       && forallb (fun p : pair11 => let '(a, b, _, _, dt, _) := p in
                     match find_pair b a ps with Some q => list_eqb dt (dt_of q) | None => false end) ps
+  | _ => true
+  end.
+
+Definition spec_C11d (i : input_C11d) (o : obs_C11) : bool :=
+  match o with
+  | Ok (ts, ps) =>
+      let n := length ts in
+      (Nlen ps =? Nlen (snd i))
+      && forallb (fun qp : (N * N) * pair11 => let '(a, b, _, _, _, _) := snd qp in (a =? fst (fst qp)) && (b =? snd (fst qp)))
+                 (combine (snd i) ps)
+      && forallb (pair_ok n ts) ps
   | _ => true
   end.
